@@ -38,13 +38,16 @@ Proof.
   unfold record_mmap, copy_to_buffer. destruct (_ && _); [|repeat split]. destruct (give b (ws s)); [|destruct (stopped s)]; repeat split.
 Qed.
 Definition is_rec_label (l : label) : bool :=
-  match l with P_start _ | P_emit _ _ _ _ | P_addlost _ _ | P_finish _ => false | _ => true end.
+  match l with P_start _ | P_emit _ _ _ _ | P_addlost _ _ | P_finish _ | P_exec _ => false | _ => true end.
 Lemma rec_step_pfields c s l s' : is_rec_label l = true -> step c s l = Some s' ->
   plog s' = plog s /\ losts s' = losts s /\ curr s' = curr s /\ nbuf s' = nbuf s /\ pdone s' = pdone s.
 Proof.
   intros Hl H. destruct l; try discriminate; cbn [step] in H.
-  - unfold m_msg in H. destruct (stopped s); [discriminate|]. destruct (chan s) as [|[b|b|n] r]; try discriminate;
-      injection H as <-; try (repeat split; fail).
+  - unfold m_msg in H. destruct (stopped s); [discriminate|]. destruct (chan s) as [|[b|b|n|b] r]; try discriminate.
+    4:{ destruct (first_tid (fst b) (shl s)) as [b'|]; injection H as <-; [|repeat split].
+        destruct (record_mmap_pfields (set_shl (set_chan s r) (remove_first b' (shl s))) b') as (F1 & F2 & F3 & F4 & F5).
+        repeat split; assumption. }
+    all: injection H as <-; try (repeat split; fail).
     destruct (record_mmap_pfields (set_shl (set_chan s r) (remove_first b (shl s))) b) as (F1 & F2 & F3 & F4 & F5).
     repeat split; assumption.
   - apply w_pick_spec in H. destruct H as (s0 & Ek & _ & wr & _ & _ & H).
@@ -195,6 +198,14 @@ Proof.
       destruct (Nat.eq_dec t' t) as [->|Hne].
       * destruct (L t) as [A B C D E]. constructor; sp; rewrite ?F1, ?F2, ?F3, ?F4, ?F5, ?updt_same; try assumption; discriminate.
       * apply (LInv_same s); sp; rewrite ?F1, ?F2, ?F3, ?F4, ?F5, ?updt_other by assumption; try reflexivity. apply L.
+    + (* P_exec *)
+      unfold p_exec in H. destruct (p_live s t) eqn:Lv; [|discriminate]. destruct (curr s t) as [i|] eqn:Hc; [|discriminate].
+      injection H as <-. destruct (Nat.eq_dec t' t) as [->|Hne].
+      * destruct (L t) as [A B C D E]. pose proof (C i Hc) as L0. constructor; sp; rewrite ?updt_same; try assumption.
+        -- intros; exact L0.
+        -- discriminate.
+        -- discriminate.
+      * apply (LInv_same s); sp; rewrite ?updt_other by assumption; try reflexivity. apply L.
 Qed.
 
 Theorem lost_rule_reachable c nw s : reach c nw s -> forall t, LInv s t.
@@ -226,9 +237,9 @@ Qed.
 Lemma dropped_of_app l1 l2 : dropped_of (l1 ++ l2) = dropped_of l1 ++ dropped_of l2.
 Proof. apply flat_map_app. Qed.
 
-Lemma find_free_ext s0 s t : flag s0 = flag s -> nbuf s0 t = nbuf s t -> find_free s0 t = find_free s t.
+Lemma find_free_ext s0 s t : flag s0 = flag s -> nbuf s0 t = nbuf s t -> rbase s0 t = rbase s t -> find_free s0 t = find_free s t.
 Proof.
-  intros Hf Hn. unfold find_free. rewrite Hn.
+  intros Hf Hn Hb. unfold find_free. rewrite Hn, Hb.
   assert (G : forall k i, find_free_from s0 t i k = find_free_from s t i k).
   { induction k as [|k IH]; intro i; cbn; [reflexivity|].
     rewrite Hf. destruct (f_rec (flag s (t, i))); [apply IH|reflexivity]. }
@@ -243,7 +254,7 @@ Theorem drop_only_on_alloc_failure c s l s' t : step c s l = Some s' -> dropped 
 Proof.
   intros H Hd. destruct (is_rec_label l) eqn:Hl.
   { destruct (rec_step_pfields c s l s' Hl H) as (F1 & _). exfalso. apply Hd. unfold dropped. rewrite F1. reflexivity. }
-  destruct l as [t0|t0 r pad ok|t0 n|t0| | | | | | | | |]; try discriminate; cbn [step] in H.
+  destruct l as [t0|t0 r pad ok|t0 n|t0|t0| | | | | | | | |]; try discriminate; cbn [step] in H.
   - exfalso. apply Hd. unfold p_start in H. destruct (_ && _); [|discriminate]. injection H as <-. reflexivity.
   - unfold p_emit in H. destruct (p_live s t0) eqn:Lv; [|discriminate].
     apply p_live_spec in Lv. destruct Lv as (Hn & Hdn & Es).
@@ -272,12 +283,14 @@ Proof.
       * exfalso. apply Hd. destruct (append_rec_fields s t0 i r) as (_ & A2 & _). cbv zeta in A2. unfold dropped. rewrite A2.
         unfold updt. destruct (Nat.eqb_spec t t0) as [->|]; [|reflexivity]. rewrite dropped_of_app. cbn. apply app_nil_r.
       * match type of Hd with dropped (switch ?s0 _ _ _) _ <> _ =>
-          destruct (Hsw s0 eq_refl eq_refl (find_free_ext s0 s t0 eq_refl eq_refl) Hd) as (-> & -> & F & D1 & E1) end. exists r, pad. auto.
+          destruct (Hsw s0 eq_refl eq_refl (find_free_ext s0 s t0 eq_refl eq_refl eq_refl) Hd) as (-> & -> & F & D1 & E1) end. exists r, pad. auto.
     + injection H as <-. destruct (Hsw s eq_refl eq_refl eq_refl Hd) as (-> & -> & F & D1 & E1). exists r, pad. auto.
   - exfalso. apply Hd. unfold p_addlost in H. destruct (p_live s t0); [|discriminate]. destruct (curr s t0); [discriminate|].
     injection H as <-. reflexivity.
   - exfalso. apply Hd. unfold p_finish in H. destruct (p_live s t0); [|discriminate]. injection H as <-.
     unfold dropped; sp. destruct (curr s t0); [destruct (f_rec _)|]; reflexivity.
+  - exfalso. apply Hd. unfold p_exec in H. destruct (p_live s t0); [|discriminate]. destruct (curr s t0); [|discriminate].
+    injection H as <-. reflexivity.
 Qed.
 
 (* ------------------------------------------------------------------ the loss that is never reported:
